@@ -107,10 +107,15 @@ var eofFalsePredicates = map[string]bool{
 // excludes: taking the given branch of cond implies that the current symbol is
 // not the end-of-input sentinel.
 func (m *eofModel) excludes(cond ast.Expr, branch bool, depth int) bool {
-	if depth > 8 || cond == nil {
+	if depth > 24 || cond == nil {
 		return false
 	}
 	switch x := core.Unparen(cond).(type) {
+	case *ast.Ident:
+		// a constant condition never takes the other branch: vacuously excluded there
+		if tv, ok := m.info.Types[x]; ok && tv.Value != nil && tv.Value.Kind() == constant.Bool {
+			return constant.BoolVal(tv.Value) != branch
+		}
 	case *ast.UnaryExpr:
 		if x.Op == token.NOT {
 			return m.excludes(x.X, !branch, depth+1)
@@ -160,11 +165,11 @@ func (m *eofModel) excludes(cond ast.Expr, branch bool, depth int) bool {
 			return false
 		}
 		fd := core.DeclOf(pk, fn.Origin())
-		if fd == nil || fd.Body == nil || len(fd.Body.List) != 1 {
+		if fd == nil || fd.Body == nil || fd.Type.Results == nil || len(fd.Type.Results.List) != 1 {
 			return false
 		}
-		ret, ok := fd.Body.List[0].(*ast.ReturnStmt)
-		if !ok || len(ret.Results) != 1 {
+		result := returnedExpr(fd.Body.List, nil)
+		if result == nil {
 			return false
 		}
 		var bound types.Object
@@ -179,9 +184,73 @@ func (m *eofModel) excludes(cond ast.Expr, branch bool, depth int) bool {
 			return false
 		}
 		inner := &eofModel{info: pk.TypesInfo, decl: fd, sentinels: m.sentinels, fields: m.fields, calls: m.calls, prog: m.prog, recvAtom: bound}
-		return inner.excludes(ret.Results[0], branch, depth+1)
+		return inner.excludes(result, branch, depth+1)
 	}
 	return false
+}
+
+// returnedExpr rewrites the body of a boolean function made of `if` statements, switches
+// over constants and returns of one value as the single expression it computes: the value
+// returned by running stmts, or rest when they fall through. nil when the body has any other
+// statement (assignments, loops, calls as statements).
+// ReturnedExpr: see returnedExpr.
+func ReturnedExpr(stmts []ast.Stmt, rest ast.Expr) ast.Expr { return returnedExpr(stmts, rest) }
+
+func returnedExpr(stmts []ast.Stmt, rest ast.Expr) ast.Expr {
+	if len(stmts) == 0 {
+		return rest
+	}
+	switch st := stmts[0].(type) {
+	case *ast.ReturnStmt:
+		if len(st.Results) != 1 {
+			return nil
+		}
+		return st.Results[0]
+	case *ast.AssignStmt:
+		// a local name for a value read without calling anything: `x := a.b.c`
+		if st.Tok != token.DEFINE || len(st.Lhs) != 1 || len(st.Rhs) != 1 {
+			return nil
+		}
+		pure := true
+		ast.Inspect(st.Rhs[0], func(n ast.Node) bool {
+			if _, isCall := n.(*ast.CallExpr); isCall {
+				pure = false
+			}
+			return pure
+		})
+		if !pure {
+			return nil
+		}
+		return returnedExpr(stmts[1:], rest)
+	case *ast.BlockStmt:
+		return returnedExpr(append(append([]ast.Stmt{}, st.List...), stmts[1:]...), rest)
+	case *ast.SwitchStmt:
+		chain := core.SwitchAsIfChain(st)
+		if chain == nil {
+			return nil
+		}
+		return returnedExpr(append([]ast.Stmt{chain}, stmts[1:]...), rest)
+	case *ast.IfStmt:
+		if st.Init != nil {
+			return nil
+		}
+		after := returnedExpr(stmts[1:], rest)
+		then := returnedExpr(st.Body.List, after)
+		els := after
+		if st.Else != nil {
+			els = returnedExpr([]ast.Stmt{st.Else}, after)
+		}
+		if then == nil || els == nil {
+			return nil
+		}
+		// (c && then) || (!c && els)
+		return &ast.BinaryExpr{
+			X:  &ast.BinaryExpr{X: st.Cond, Op: token.LAND, Y: then},
+			Op: token.LOR,
+			Y:  &ast.BinaryExpr{X: &ast.UnaryExpr{Op: token.NOT, X: st.Cond}, Op: token.LAND, Y: els},
+		}
+	}
+	return nil
 }
 
 // loopProgress decides the body-consumes argument on the go/cfg graph:
